@@ -115,6 +115,110 @@ theorem open_call_backend_reads_everything (method : String) (md : SMD) (es : Li
   have := sent n (reach method md es)
   rw [reach_append] at this; exact this
 
+/-! ### a whole call -/
+
+/-- the backend's answer after it has read the caller's stream: header, messages, trailers and status -/
+def answer (hdr : SMD) (reps : List Msg) (tr : SMD) (st : Status) : List Ev :=
+  [.backendHeader hdr] ++ reps.map Ev.backendSend ++ [.backendFinish tr st]
+
+theorem bEOF_step (s : St) (e : Ev) (h : s.bEOF = true) : (step s e).bEOF = true := by
+  cases e <;> simp only [step] <;> (repeat' split) <;> first | exact h | rfl
+
+theorem bEOF_run (s : St) (es : List Ev) (h : s.bEOF = true) : (run s es).bEOF = true := by
+  induction es generalizing s with
+  | nil => exact h
+  | cons e es ih => exact ih (step s e) (bEOF_step s e h)
+
+theorem run_sends (s : St) (reps : List Msg) (h : s.bFin = none) :
+    (run s (reps.map Ev.backendSend)).bFin = none ∧ (run s (reps.map Ev.backendSend)).cSent = s.cSent := by
+  induction reps generalizing s with
+  | nil => exact ⟨h, rfl⟩
+  | cons m r ih =>
+    have h1 : (step s (.backendSend m)).bFin = none := by simp [step, h]
+    have h2 : (step s (.backendSend m)).cSent = s.cSent := by simp [step, h]
+    obtain ⟨a, b⟩ := ih (step s (.backendSend m)) h1
+    exact ⟨a, b.trans h2⟩
+
+theorem step_finish (u : St) (tr : SMD) (st : Status) (h : u.bFin = none) :
+    (step u (.backendFinish tr st)).bFin = some (tr, st) ∧ (step u (.backendFinish tr st)).cSent = u.cSent := by
+  simp [step, h]
+
+theorem run_answer (s : St) (hdr : SMD) (reps : List Msg) (tr : SMD) (st : Status) (h : s.bFin = none) :
+    (run s (answer hdr reps tr st)).bFin = some (tr, st) ∧ (run s (answer hdr reps tr st)).cSent = s.cSent := by
+  have e : run s (answer hdr reps tr st) =
+      step (run (step s (.backendHeader hdr)) (reps.map Ev.backendSend)) (.backendFinish tr st) := by
+    simp [answer, run, List.foldl_append]
+  have h1 : (step s (.backendHeader hdr)).bFin = none := by
+    simp only [step]; split <;> simp [h]
+  have h1' : (step s (.backendHeader hdr)).cSent = s.cSent := by
+    simp only [step]; split <;> rfl
+  obtain ⟨a, b⟩ := run_sends (step s (.backendHeader hdr)) reps h1
+  obtain ⟨c, d⟩ := step_finish _ tr st a
+  rw [e]
+  exact ⟨c, d.trans (b.trans h1')⟩
+
+/-- **A whole call with a backend that reads the caller's stream to its end and then answers.** From any
+reachable state in which the caller has half-closed and the backend has not finished: after `n₁ ≥ mu` fair
+rounds, the backend's answer (header, any messages, trailers, any status), and `n₂ ≥ nu` further rounds, the
+backend has received all the caller's messages and the caller has received the whole answer — all messages,
+the trailers, the status code and message, the header iff a message was sent. -/
+theorem call_with_reading_backend_completes (method : String) (md : SMD) (es : List Ev) (n1 n2 : Nat)
+    (hdr : SMD) (reps : List Msg) (tr : SMD) (st : Status)
+    (hc : (reach method md es).cClosed = true) (hb : (reach method md es).bFin = none)
+    (h1 : mu (up (reach method md es)) ≤ n1)
+    (h2 : nu (down (reach method md (es ++ settle n1 ++ answer hdr reps tr st))) ≤ n2) :
+    let s' := reach method md (es ++ settle n1 ++ answer hdr reps tr st ++ settle n2)
+    s'.bGot = (reach method md es).cSent ∧ s'.bEOF = true ∧
+    s'.cFin = some (tr, st.norm) ∧ s'.cGot = s'.bSent ∧
+    (s'.bSent ≠ [] → s'.cHdr = some s'.bHdr) ∧ (s'.bSent = [] → s'.cHdr = none) := by
+  intro s'
+  -- the caller → backend half
+  obtain ⟨e1, _, e3⟩ := open_call_backend_reads_everything method md es n1 hc hb h1
+  -- the call is still open after the rounds
+  have inv := reach_inv method md es
+  have hnd : ∀ tr st, (reach method md es).c2s ≠ .done tr st := by
+    intro tr st h
+    have := (inv.done tr st h).1; rw [hb] at this; cases this
+  have hdf : (reach method md es).dFin = none := by
+    cases hd : (reach method md es).dFin with
+    | none => rfl
+    | some f => obtain ⟨tr, st, h, _⟩ := inv.dfin f hd; exact absurd h (hnd tr st)
+  obtain ⟨_, hopen⟩ := settle_rounds_up n1 (reach method md es) ⟨hb, hdf, hnd⟩
+  rw [reach_append] at hopen
+  -- the answer
+  obtain ⟨a1, a2⟩ := run_answer (reach method md (es ++ settle n1)) hdr reps tr st hopen.1
+  rw [reach_append] at a1 a2
+  -- the backend → caller half
+  obtain ⟨f1, f2, _, f4, f5⟩ :=
+    finished_backend_reaches_caller method md (es ++ settle n1 ++ answer hdr reps tr st) tr st n2 a1 h2
+  -- the end of the stream, once seen, stays seen; then the backend has everything
+  have heof : s'.bEOF = true := by
+    have := bEOF_run (reach method md (es ++ settle n1)) (answer hdr reps tr st ++ settle n2) e1
+    rw [reach_append, ← List.append_assoc] at this; exact this
+  obtain ⟨g1, _⟩ := backend_at_eof_has_everything method md _ heof
+  -- nobody but the caller adds to what the caller sent
+  have hs : s'.cSent = (reach method md es).cSent := by
+    have sent : ∀ (k : Nat) (t : St), (run t (settle k)).cSent = t.cSent := by
+      intro k
+      induction k with
+      | zero => intro t; rfl
+      | succ k ih =>
+        intro t
+        have hr : run t (settle (k + 1)) = run (run t round) (settle k) := by
+          simp only [settle, run, List.foldl_append]
+        rw [hr, ih]
+        simp only [run, round, List.foldl_cons, List.foldl_nil]
+        have one : ∀ (u : St) (e : Ev), e ∈ round → (step u e).cSent = u.cSent := by
+          intro u e he
+          simp only [round, List.mem_cons, List.mem_nil_iff, or_false] at he
+          rcases he with h | h | h | h | h | h <;> subst h <;> simp only [step] <;> (repeat' split) <;> rfl
+        rw [one _ _ (by simp [round]), one _ _ (by simp [round]), one _ _ (by simp [round]),
+          one _ _ (by simp [round]), one _ _ (by simp [round]), one _ _ (by simp [round])]
+    have := sent n2 (reach method md (es ++ settle n1 ++ answer hdr reps tr st))
+    rw [reach_append] at this
+    rw [this, a2, e3]
+  exact ⟨by rw [g1, hs], heof, f1, f2, f4, f5⟩
+
 /-! ### non-vacuity -/
 
 /-- a caller that has sent a message and half-closed, nothing scheduled yet: `mu` = 3·1 + 1 + 1 + 0 + 1 = 6
@@ -133,5 +237,15 @@ example :
     (reach "/m" [] (es ++ settle 4)).cFin = some ([("x-t", ["2"])], { code := 9, message := "boom" }) ∧
     (reach "/m" [] (es ++ settle 4)).cGot = ["0a"] ∧
     (reach "/m" [] (es ++ settle 4)).cHdr = some [("x-h", ["1"])] := by decide
+
+/-- the hypotheses of `call_with_reading_backend_completes` on the smallest call: no caller message, an answer
+without message (`mu` = 3, `nu` = 3) -/
+example :
+    let es : List Ev := [.callerClose]
+    let ans := answer [("x-h", ["1"])] [] [("x-t", ["2"])] { code := 5, message := "nope" }
+    mu (up (reach "/m" [] es)) = 3 ∧ nu (down (reach "/m" [] (es ++ settle 3 ++ ans))) = 3 ∧
+    (reach "/m" [] (es ++ settle 3 ++ ans ++ settle 3)).cFin = some ([("x-t", ["2"])], { code := 5, message := "nope" }) ∧
+    (reach "/m" [] (es ++ settle 3 ++ ans ++ settle 3)).bEOF = true ∧
+    (reach "/m" [] (es ++ settle 3 ++ ans ++ settle 3)).cHdr = none := by decide
 
 end Fabio.Props.C16RelayLive
